@@ -2540,6 +2540,7 @@ impl BrailleChars {
             return match name {
                 "mi" | "mn" => true,
                 "mo"  => !crate::canonicalize::is_relational_op(node),
+                "ms" => false,      // a leaf -- its child is text, not an element
                 "mtext" => {
                     let text = as_text(node).trim();
                     return text=="?" || text=="-?-" || text.is_empty();   // various forms of "fill in missing content" (see also Nemeth_RULEs.yaml, "omissions")
